@@ -582,6 +582,9 @@ func C06(run *report.Run) {
 		world.UintCfg(2, urange(1, 5), 1, M, "none"),
 		world.LKeyCfg(2, []uint8{0, 2, 0, 1}, 1, B, "none"),
 		world.LKeyCfg(2, []uint8{3, 0, 0, 1}, 1, B, "none"),
+		// uncomparable value types (slices, structs holding slices and maps): values are compared during the merge
+		world.IntCfg(2, []int{1, 2, 4}, []interface{}{[]int{1}, []int{2, 3}}, []int{}, B, "none"),
+		world.IntCfg(2, []int{1, 2, 4}, []interface{}{world.TVal{Tags: []string{"x"}}, world.TVal{Tags: []string{"y"}, M: map[string]int{"q": 1}}}, world.TVal{}, M, "none"),
 	}
 	if run.Thorough() {
 		cfgs = append(cfgs, world.UintCfg(2, urange(1, 5), 2, B, "none"), world.UintCfg(3, ulist(1, 2, 3, 4, 6, 9), 1, B, "none"))
@@ -773,6 +776,11 @@ func C07(run *report.Run) {
 
 func C15(run *report.Run) {
 	runVersionPairsSerial(run, "C15", versionConfigs(run.Thorough()), checkDiffCost)
+	if run.Thorough() {
+		acc := &pairAcc{}
+		bigC15(run, acc)
+		acc.flush(run)
+	}
 	run.AddSample("every ordered pair of persisted versions: distinct names passed to Persist.Load during DiffIter and DiffLinks vs 2*D+2, D = |reach(old) xor reach(new)|")
 	run.Rule = "versions as in C07 on cache-less recording stores; all ordered pairs; oracle: distinct Load names <= 2*D+2, and 0 for the same version"
 }
